@@ -118,7 +118,14 @@ class Template:
         self.var = var
         self.doms = []
         self.fixed = []
-        for p in positions:
+        self.alias = {}
+        for pi, p in enumerate(positions):
+            if isinstance(p, tuple) and len(p) == 2 and p[0] == "=":
+                # same variable as an earlier position
+                self.alias[pi] = p[1]
+                self.doms.append(self.doms[p[1]])
+                self.fixed.append(False)
+                continue
             if isinstance(p, str):
                 j = alpha.idx(p)
                 self.doms.append(frozenset([j]))
@@ -131,13 +138,21 @@ class Template:
                 self.doms.append(d)
                 self.fixed.append(False)
         self.n = len(self.doms)
-        self.kvars = [z3.Int(f"{var}{i}") for i in range(self.n)]
+        self.kvars = [z3.Int(f"{var}{self.alias.get(i, i)}") for i in range(self.n)]
         self.lines = [z3.Int(f"{var}line{i}") for i in range(self.n)]
         self.cols = [z3.Int(f"{var}col{i}") for i in range(self.n)]
 
-    def declare(self, eng: E.Engine):
+    def declare(self, eng: E.Engine, coords=False):
         for i in range(self.n):
+            if i in self.alias:
+                continue
             eng.declare_fd((self.var, i), self.kvars[i], self.doms[i])
+            if coords:
+                # any layout: lines and columns are free positive integers (bounded only so that witnesses can be rendered)
+                eng.solver.add(self.lines[i] >= 1, self.lines[i] <= 5000, self.cols[i] >= 1, self.cols[i] <= 60)
+
+    def coords_witness(self, model):
+        return [(model.eval(self.lines[i], model_completion=True).as_long(), model.eval(self.cols[i], model_completion=True).as_long()) for i in range(self.n)]
 
     def describe(self):
         out = []
@@ -228,6 +243,16 @@ class Token:
         return f"Token#{self.index}({self.type!s},{self.value!s})"
 
 
+_TOKCLS = None
+
+
+def _native_token_class():
+    global _TOKCLS
+    if _TOKCLS is None:
+        _TOKCLS = loader.native("c_lexer").Token
+    return _TOKCLS
+
+
 class TokLexerBase:
     """Lexer protocol over a Template.  Subclass per exploration sets TEMPLATE /
     SYM_COORDS / TRACK."""
@@ -235,6 +260,8 @@ class TokLexerBase:
     TEMPLATE: Template = None
     SYM_COORDS = False
     FILE_TAGS = False
+    START = 0
+    END = None
 
     def __init__(self, error_func, on_lbrace_func, on_rbrace_func, type_lookup_func):
         self.error_func = error_func
@@ -245,10 +272,11 @@ class TokLexerBase:
         self._filename = ""
         self.template = self.TEMPLATE
         self.handed = []  # tokens handed out so far
+        self.last_index = -1
         self.classified = []  # (index, name, is_type) for IDENT symbols
 
     def input(self, text, filename=""):
-        self.i = 0
+        self.i = self.START
         self._filename = filename
         self.handed = []
         self.classified = []
@@ -258,18 +286,18 @@ class TokLexerBase:
     @property
     def filename(self):
         if self.FILE_TAGS and self.handed:
-            return FileTag(self.handed[-1].index)
+            return FileTag(self.last_index)
         return self._filename
 
     def token(self):
         tpl = self.template
         i = self.i
-        if i >= tpl.n:
+        if i >= (tpl.n if self.END is None else self.END):
             return None
         self.i = i + 1
         E.cur().at_input_position(i)
         alpha = tpl.alpha
-        key = (tpl.var, i)
+        key = (tpl.var, tpl.alias.get(i, i))
         var = tpl.kvars[i]
         eng = E.cur()
         if self.SYM_COORDS:
@@ -295,8 +323,10 @@ class TokLexerBase:
             ttype = "TYPEID" if is_type else "ID"
             tval = IdxStr(name, i) if self.SYM_COORDS else name
             self.classified.append((i, name, bool(is_type)))
-        tok = Token(ttype, tval, line, col, i)
+        # the repository's own Token class (a dataclass: '==' compares its four fields)
+        tok = _native_token_class()(ttype, tval, line, col)
         self.handed.append(tok)
+        self.last_index = i
         if ttype == "LBRACE":
             self.on_lbrace_func()
         elif ttype == "RBRACE":
@@ -304,9 +334,9 @@ class TokLexerBase:
         return tok
 
 
-def make_lexer_class(template, sym_coords=False, file_tags=False):
+def make_lexer_class(template, sym_coords=False, file_tags=False, start=0, end=None):
     return type(
         "TokLexer",
         (TokLexerBase,),
-        {"TEMPLATE": template, "SYM_COORDS": sym_coords, "FILE_TAGS": file_tags},
+        {"TEMPLATE": template, "SYM_COORDS": sym_coords, "FILE_TAGS": file_tags, "START": start, "END": end},
     )
